@@ -225,6 +225,54 @@ def repo_state(repo=None):
         return {"dir": repo}
 
 
+def shortest_crashing_prefix(make_cmd, lo, hi, cwd=None, env=None):
+    def dies(b):
+        rc, _, _ = run_capture(make_cmd(lo, b), cwd=cwd, env=env)
+        return rc not in (0, 1, 2)
+    if not dies(hi):
+        return None
+    a, b = lo, hi  # invariant: dies(b); find the smallest such b
+    while b - a > 1:
+        mid = (a + b) // 2
+        if dies(mid):
+            b = mid
+        else:
+            a = mid
+    return b
+
+
+def run_engine_careful(binary, sub, seed, n, prop, label):
+    """Single-threaded processes with the free-tracking allocator on for every trace: a double free is reported
+    at the operation where it happens (and skipped, so the process heap stays healthy)."""
+    from concurrent.futures import ThreadPoolExecutor
+    per = (n + NCPU - 1) // NCPU
+    os.makedirs(REPLAYS, exist_ok=True)
+
+    def one(k):
+        a, b = k * per, min((k + 1) * per, n)
+        return run_capture([binary] + sub + ["run", "--careful", "--seed", str(seed), "--from", str(a), "--to", str(b), "--threads", "1", "--out", REPLAYS])
+    all_stats, violations = [], []
+    with ThreadPoolExecutor(max_workers=NCPU) as ex:
+        for rc, out, err in ex.map(one, range(NCPU)):
+            st, viols = parse_stats(out)
+            if rc == 2:
+                raise HarnessError("%s careful: harness error\n%s" % (label, err[-2000:]))
+            if rc not in (0, 1) or st is None:
+                # died anyway (e.g. use after free): fall back to the plain runner, which bisects
+                return run_engine_native(binary, sub, seed, n, prop, label)
+            all_stats.append(st)
+            violations += viols
+    merged = dict(all_stats[0])
+    for k in ("runs", "distinct_traces", "distinct_shapes", "distinct_nontrivial"):
+        merged[k] = sum(s[k] for s in all_stats)
+    merged["distinct_transitions"] = max(s["distinct_transitions"] for s in all_stats)
+    merged["counters"] = {}
+    for s in all_stats:
+        for k, v in s["counters"].items():
+            merged["counters"][k] = merged["counters"].get(k, 0) + v
+    return merged, violations[:1]
+
+
 def bisect_crash(make_cmd, lo, hi, cwd=None, env=None):
     """A native engine process died (signal/abort) somewhere in run indices [lo, hi): find the first
     single run that still kills a fresh process. make_cmd(a, b) -> argv for runs [a, b), 1 thread."""
@@ -259,9 +307,17 @@ def run_engine_native(binary, sub, seed, n, prop, label, threads=None):
     stats, viols = parse_stats(out)
     if rc in (0, 1) and stats is not None:
         return stats, viols
-    first = bisect_crash(lambda a, c: [binary] + sub + ["run", "--seed", str(seed), "--from", str(a), "--to", str(c), "--threads", "1", "--out", "-"], 0, n)
+    mk = lambda a, c: [binary] + sub + ["run", "--seed", str(seed), "--from", str(a), "--to", str(c), "--threads", "1", "--out", "-"]
+    first = bisect_crash(mk, 0, n)
     if first is None:
-        raise HarnessError("%s died (rc=%s) but no single run reproduces it\n%s" % (label, rc, err[-3000:]))
+        # cumulative heap corruption: no single trace kills a fresh process. Shrink to the shortest prefix
+        # of the run range that still does, and report that range as the replay.
+        hi = shortest_crashing_prefix(mk, 0, n)
+        if hi is None:
+            raise HarnessError("%s died (rc=%s) but not even the whole range reproduces it single-threaded\n%s" % (label, rc, err[-3000:]))
+        p = save_replay("%s-%s-crash-range-%d-%d.trace" % (prop, label, seed, hi),
+                        "# range-replay engine=%s sub=%s seed=%d from=0 to=%d\n# property %s\n# oracle CRASH (the process dies while executing runs [0,%d) in one thread; no single run isolates it: heap corruption accumulates)\n" % (label, " ".join(sub), seed, hi, prop, hi))
+        return None, ["VIOLATION property=%s replay=%s oracle=CRASH engine=%s seed=%d runs=0..%d" % (prop, p, label, seed, hi)]
     _, tr, _ = run_capture([binary] + sub + ["gen", "--seed", str(seed), "--run", str(first)])
     p = save_replay("%s-%s-crash-%d-%d.trace" % (prop, label, seed, first), tr + "# property %s\n# oracle CRASH (the process died while executing this trace)\n" % prop)
     return None, ["VIOLATION property=%s replay=%s oracle=CRASH engine=%s seed=%d run=%d" % (prop, p, label, seed, first)]
